@@ -101,7 +101,9 @@ Inductive op :=
 
 Inductive cret := RetGet | RetCreated.
 
-Record obj := { o_key : Z; o_expired : bool; o_wlock : option nat }.
+(* o_init: the constructor has returned (`_init` has set `id` and the final `_SO_writeLock`); an instance made by
+   create is registered by cache.created() BEFORE that *)
+Record obj := { o_key : Z; o_expired : bool; o_wlock : option nat; o_init : bool }.
 
 Record thread := {
   t_pc : pc;
@@ -335,10 +337,13 @@ Definition release (s : state) (t : nat) (th th' : thread) : option state :=
   end.
 
 Definition set_obj_expired (h : nat -> obj) (o : nat) (b : bool) : nat -> obj :=
-  upd h o {| o_key := o_key (h o); o_expired := b; o_wlock := o_wlock (h o) |}.
+  upd h o {| o_key := o_key (h o); o_expired := b; o_wlock := o_wlock (h o); o_init := o_init (h o) |}.
 Definition set_obj_wlock (h : nat -> obj) (o : nat) (l : option nat) : nat -> obj :=
-  upd h o {| o_key := o_key (h o); o_expired := o_expired (h o); o_wlock := l |}.
-Definition fresh_obj (k : Z) : obj := {| o_key := k; o_expired := false; o_wlock := None |}.
+  upd h o {| o_key := o_key (h o); o_expired := o_expired (h o); o_wlock := l; o_init := o_init (h o) |}.
+Definition set_obj_init (h : nat -> obj) (o : nat) : nat -> obj :=
+  upd h o {| o_key := o_key (h o); o_expired := o_expired (h o); o_wlock := o_wlock (h o); o_init := true |}.
+Definition fresh_obj (k : Z) : obj := {| o_key := k; o_expired := false; o_wlock := None; o_init := true |}.
+Definition fresh_obj_uninit (k : Z) : obj := {| o_key := k; o_expired := false; o_wlock := None; o_init := false |}.
 
 Definition bump (e : Z -> nat) (i : Z) : Z -> nat := updz e i (S (e i)).
 
@@ -471,7 +476,7 @@ Definition step (s : state) (t : nat) : option state :=
   | C1397 => let k := s_nextid s in
              let n := s_nextobj s in
              (* the instance exists since the operation began; it gets its id here and nothing can see it before *)
-             goto (with_heap (with_rows s (s_rows s ++ [k]) (k + 1)%Z) (upd (s_heap s) n (fresh_obj k)) (S n))
+             goto (with_heap (with_rows s (s_rows s ++ [k]) (k + 1)%Z) (upd (s_heap s) n (fresh_obj_uninit k)) (S n))
                   t (set_self (set_id th k) (Some n)) C1400
   | C1400 => goto s t th SK317
   | SK317 => goto s t th SK318
@@ -488,7 +493,8 @@ Definition step (s : state) (t : nat) : option state :=
   | K181t => goto s t th K181
   | K181 => goto (with_strong s (dset (s_strong s) i (self_of th))) t
                   (set_val th (Some (self_of th)) (s_epoch s i)) K181r
-  | K181r => release s t th
+  | K181r => (* release; created() returns and _SO_finishCreate runs self._init(id): only now the instance is complete *)
+             release (with_heap s (set_obj_init (s_heap s) (self_of th)) (s_nextobj s)) t th
                (finish th (match t_val th with Some o => RObj o i (t_ep th) | None => RNone end))
   (* ---- cull *)
   | U192 => acquire s t th U193
@@ -526,7 +532,10 @@ Definition step (s : state) (t : nat) : option state :=
   | U216 => release s t th (set_pc (set_cobj th None) (match t_cret th with RetGet => F104 | RetCreated => K181a end))
   (* ---- expire (since ad272ca: the flag is tested under the write lock; an instance that is expired already
      does not purge the entry of its id again) *)
-  | X1072 => match o_wlock (s_heap s (self_of th)) with
+  | X1072 => if negb (o_init (s_heap s (self_of th))) then unmodelled s t th else
+             (* (expire() of an instance whose constructor has not returned yet in another thread: `self.id` is not
+                set and `_init` will replace the write lock; finding created_publishes_uninitialised_instance) *)
+             match o_wlock (s_heap s (self_of th)) with
              | None => goto (with_heap s (set_obj_wlock (s_heap s) (self_of th) (Some t)) (s_nextobj s)) t th X1074
              | Some _ => None                         (* blocked on the instance's write lock *)
              end
